@@ -44,6 +44,7 @@ package grpcgcp
 //@ typeinv gcpPicker := this.gb != nil && this.log != nil
 //@ typeinv gcpPicker := forall x in this.scRefs :: x != nil
 //@ typeinv gcpPicker := this.gb.cfg != nil
+//@ typeinv gcpPicker := len(this.scRefs) > 0 ==> len(this.gb.scRefList) > 0
 //@ typeinv gcpLogger := this.logger != nil
 //@ protect gcpLogger.{logger,prefix} immutable
 //@ globalinv deErr != nil && compLogger != nil
@@ -52,6 +53,9 @@ package grpcgcp
 
 //@ inv gcpBalancer.mu I0 [C05] := this.affinityMap != nil && this.fallbackMap != nil && this.scStates != nil && this.scRefs != nil && this.refreshingScRefs != nil && this.picker != nil && this.methodCfg != nil && this.scRefs != this.refreshingScRefs && this.affinityMap != this.fallbackMap
 //@ inv gcpBalancer.mu I9 [C05 C09] := forall x in this.scRefList :: x != nil
+//@ inv gcpBalancer.mu I9c [C05 C09] := (forall sc in this.scRefs :: len(this.scRefList) > 0) && (forall sc in this.refreshingScRefs :: len(this.scRefList) > 0)
+//@ inv gcpBalancer.mu I9n [C05 C09] := len(this.scRefList) <= $newCalls && $newCalls < 4294967296
+//@ mono gcpBalancer.mu [C09] := len(this.scRefList) >= old(len(this.scRefList))
 //@ inv gcpBalancer.mu I11 [C05 C17] := (forall sc in this.scStates :: this.cfg != nil) && (forall sc in this.refreshingScRefs :: this.cfg != nil) && (forall k in this.affinityMap :: this.cfg != nil)
 //@ inv gcpBalancer.mu I1 [C01 C05] := forall sc balancer.SubConn :: {sc in this.scRefs} sc in this.scRefs ==> sc != nil && this.scRefs[sc] != nil && isa(this.scRefs[sc]) && this.scRefs[sc].subConn == sc
 //@ inv gcpBalancer.mu I2 [C04 C05] := forall sc balancer.SubConn :: {sc in this.scRefs} {sc in this.scStates} (sc in this.scRefs) == (sc in this.scStates)
@@ -88,26 +92,29 @@ package grpcgcp
 //@ func (gb *gcpBalancer) newSubConn
 //@   requires gb.cfg != nil
 //@ func (gb *gcpBalancer) refresh
-//@   requires ref != nil && gb.cfg != nil
+//@   requires ref != nil && gb.cfg != nil && len(gb.scRefList) > 0
 //@   ensures [C07.refresh-once] old(ref.refreshing) ==> $newCalls == old($newCalls) && ref.refreshing && (forall sc balancer.SubConn :: (sc in gb.refreshingScRefs) == old(sc in gb.refreshingScRefs))
 //@   ensures [C07.refresh-create] !old(ref.refreshing) ==> $newCalls == old($newCalls) + 1
 //@   ensures [C07.refresh-ok] !old(ref.refreshing) && $newFail == old($newFail) ==> ref.refreshing && len(gb.refreshingScRefs) == old(len(gb.refreshingScRefs)) + 1 && (forall sc balancer.SubConn :: sc in gb.refreshingScRefs && !old(sc in gb.refreshingScRefs) ==> gb.refreshingScRefs[sc] == ref && !old($created[sc]) && $addrs[sc] == gb.addrs && $connectRequested[sc])
 //@   ensures [C07.refresh-fail] $newFail != old($newFail) ==> !ref.refreshing && (forall sc balancer.SubConn :: (sc in gb.refreshingScRefs) == old(sc in gb.refreshingScRefs))
 //@ func (gb *gcpBalancer) getReadySubConnRef
 //@ func (gb *gcpBalancer) getSubConnRoundRobin
-//@   requires ctx != nil
+//@   requires ctx != nil && gb.cfg != nil
+//@   requires len(gb.scRefList) > 0
 //@   ensures result != nil
 //@   loop 1 blocking
 //@ func (gb *gcpBalancer) addSubConn
 //@   inline
 //@ func (gb *gcpBalancer) enforceMinSize
 //@   inline
-//@   loop 1 invariant lockinv(gb.mu)
+//@   loop 1 invariant lockinv(gb.mu) && gb.cfg != nil
+//@   loop 1 decreases gb.cfg.GetChannelPool().GetMinSize() - len(gb.scRefs)
 //@ func (gb *gcpBalancer) initializeConfig
 //@   inline
 //@ func (gb *gcpBalancer) regeneratePicker
 //@   inline
 //@   loop 1 invariant forall x in readyRefs :: x != nil
+//@   loop 1 invariant len(readyRefs) > 0 ==> len(gb.scRefList) > 0
 //@
 //@ func NewGCPLogger
 //@   requires logger != nil
@@ -117,6 +124,7 @@ package grpcgcp
 //@   requires gb != nil
 //@   requires forall x in readySCRefs :: x != nil
 //@   requires gb.cfg != nil
+//@   requires len(readySCRefs) > 0 ==> len(gb.scRefList) > 0
 //@   ensures result is *gcpPicker && result.(*gcpPicker).gb == gb && result.(*gcpPicker).scRefs == readySCRefs
 //@   constructor gcpPicker
 //@ func newErrPicker
